@@ -403,6 +403,74 @@ theorem rotate_coords_full_refuted :
   revert this
   decide
 
+/-- **the carve-out, characterised** (audit follow-up, S3 tail): EVERY ambiguous span that lies across the
+new origin comes back INVERTED.  For an ambiguous span `[s, e)` with `0 ≤ s < e`, not longer than the
+circle, and a rotation amount `0 < n` whose new origin `L - n` lies strictly inside it
+(`s + n < L < e + n`, i.e. `s < L - n < e`), `Normalize(Expand(·, 0, n), L)` — the two calls `gts.Rotate`
+makes — is exactly `Ambiguous{s + n, e + n - L}`, and its end is not above its start
+(`e + n - L ≤ s + n`; equal only for a span as long as the circle, which comes back EMPTY; a shorter one
+fails `coordsWithin`, the oracle "all coordinates lie in [0, L]" of harness/spec.go).  So the property's proviso
+"ambiguous spans only when they do not cross the new origin" (`ambOk` / the ambiguous clause of `normOk`)
+is not a gap of the proof: outside it the code's answer is never a span of the rotated record
+(`rotate_coords_full_refuted` is one instance; under a wrap-around `Slice` this is known finding K3A,
+`C03.slice_wrap_ambiguous_coords_full_refuted`). -/
+theorem rotate_ambiguous_across_origin (s e n L : Int) (hs : 0 ≤ s) (hse : s < e) (heL : e - s ≤ L)
+    (hn : 0 < n) (h1 : s + n < L) (h2 : L < e + n) :
+    normalize (expand (ambiguous s e) 0 n) L = ambiguous (s + n) (e + n - L) ∧
+    e + n - L ≤ s + n ∧
+    (e - s < L → coordsWithin (normalize (expand (ambiguous s e) 0 n) L) L = false) := by
+  have hexp : expand (ambiguous s e) 0 n = ambiguous (s + n) (e + n) := by
+    have c1 : (0 ≤ n ∧ (0 : Int) ≤ s ∨ n < 0 ∧ 0 < s) := Or.inl ⟨by omega, hs⟩
+    have c2 : (0 ≤ n ∧ (0 : Int) < e ∨ n < 0 ∧ 0 ≤ e) := Or.inl ⟨by omega, by omega⟩
+    simp only [expand, ambiguousExpand, gmax, if_neg (show ¬ n = 0 by omega), if_pos c1, if_pos c2,
+      if_neg (show ¬ s + n < 0 by omega), if_neg (show ¬ e + n < 0 by omega),
+      if_neg (show ¬ s + n = e + n by omega)]
+  have hnorm : normalize (ambiguous (s + n) (e + n)) L = ambiguous (s + n) (e + n - L) := by
+    simp only [normalize]
+    rw [tmod_nonneg_eq _ _ (by omega), tmod_nonneg_eq _ _ (by omega),
+      Int.emod_eq_of_lt (by omega) (by omega),
+      mod_window L L (e + n - 1) 1 (by omega) (by omega) (by omega)]
+    congr 1; omega
+  rw [hexp, hnorm]
+  refine ⟨rfl, by omega, fun hlt => ?_⟩
+  have hinv : e + n - L < s + n := by omega
+  simp [coordsWithin, leaves, leafWithin, leafSpan, hinv]
+
+/-- non-vacuity: `one-of(4.5)` on a circle of 5 rotated by 1 (the witness of `rotate_coords_full_refuted`), and
+`one-of(7.9)` on a circle of 10 rotated by 2 = the rotation step of `Slice(seq, 8, 4)` (known finding K3A) -/
+example : (0 : Int) ≤ 3 ∧ (3 : Int) < 5 ∧ (5 : Int) - 3 ≤ 5 ∧ (0 : Int) < 1 ∧ (3 : Int) + 1 < 5 ∧ (5 : Int) < 5 + 1 ∧
+    (normalize (expand (ambiguous 3 5) 0 1) 5).beq (ambiguous 4 1) = true ∧
+    (normalize (expand (ambiguous 6 9) 0 2) 10).beq (ambiguous 8 1) = true := by decide
+
+/-- **what the guard `normOk` asks of an ambiguous span, in the property's words** (audit follow-up, S3
+tail): for an ambiguous span `[s, e)` inside the record (`0 ≤ s < e ≤ L`), shorter than the circle, and a
+reduced rotation amount `0 ≤ n < L`, the guard `normOk L (expand · 0 n)` of the rotation theorems
+(`rotate_den_partial`, `rotate_feature_partial`, C04Table, C03 `slice_wrap_*_partial`, C15
+`rotate_features_partial`, C15Extract) holds EXACTLY when the span does not lie across the new origin
+`L - n` — so for ambiguous spans the guard is the property's own proviso, nothing more.  (The harness
+restates the right-hand side as `ambCrossesOrigin`, harness/props_loc.go.) -/
+theorem normOk_ambiguous_iff (s e n L : Int) (hs : 0 ≤ s) (hse : s < e) (heL : e ≤ L) (hlen : e - s < L)
+    (hn : 0 ≤ n) (hnL : n < L) :
+    normOk L (expand (ambiguous s e) 0 n) = true ↔ ¬ (s + n < L ∧ L < e + n) := by
+  have hexp : expand (ambiguous s e) 0 n = ambiguous (s + n) (e + n) := by
+    by_cases h0 : n = 0
+    · subst h0; simp [expand, ambiguousExpand]
+    · have c1 : (0 ≤ n ∧ (0 : Int) ≤ s ∨ n < 0 ∧ 0 < s) := Or.inl ⟨hn, hs⟩
+      have c2 : (0 ≤ n ∧ (0 : Int) < e ∨ n < 0 ∧ 0 ≤ e) := Or.inl ⟨hn, by omega⟩
+      simp only [expand, ambiguousExpand, gmax, if_neg h0, if_pos c1, if_pos c2,
+        if_neg (show ¬ s + n < 0 by omega), if_neg (show ¬ e + n < 0 by omega),
+        if_neg (show ¬ s + n = e + n by omega)]
+  rw [hexp]
+  simp only [normOk, Bool.and_eq_true, decide_eq_true_eq]
+  by_cases hc : s + n < L
+  · rw [Int.emod_eq_of_lt (by omega) hc]; omega
+  · rw [mod_window L L (s + n) 1 (by omega) (by omega) (by omega)]; omega
+
+/-- non-vacuity, both sides: `one-of(3.5)` on a circle of 10 rotated by 2 stays inside (guard true), `one-of(7.9)`
+rotated by 2 lies across the new origin 8 (guard false: the shape of known finding K3A) -/
+example : normOk 10 (expand (ambiguous 2 5) 0 2) = true ∧ ¬ ((2 : Int) + 2 < 10 ∧ (10 : Int) < 5 + 2) ∧
+    normOk 10 (expand (ambiguous 6 9) 0 2) = false ∧ ((6 : Int) + 2 < 10 ∧ (10 : Int) < 9 + 2) := by decide
+
 /-- a location inside `[0, L]` has non-negative coordinates (so `coordsWithin l L` discharges
 the hypothesis `nonneg l` of the theorems of this file) -/
 theorem coordsWithin_nonneg (l : Loc) (L : Int) (h : coordsWithin l L = true) : nonneg l = true :=
